@@ -6,16 +6,25 @@
    one G behaviour per probe schedule with the outcomes the specification accepts (acc) and the
    outcomes of the named deviation that differ from them (dev). *)
 EXTENDS Ports, TLC, Json
-CONSTANTS MaxR, MaxO, NegFds, DstHi, NPresent, Piped, Emitting
+CONSTANTS MaxR, MaxO, NegFds, DstHi, NPresent, Piped, Emitting,
+          Mini, FdA, FdB     \* Mini = TRUE: the small alphabet over the two fds FdA, FdB (deeper sequences)
 VARIABLES present, redirs, ops
 vars == <<present, redirs, ops>>
 
 Fds == (-NegFds)..DstHi
 R0 == [t |-> "", dst |-> 0, mode |-> "", path |-> 0, src |-> 0]
-Alphabet ==
+FullAlphabet ==
        {[R0 EXCEPT !.t = "file", !.dst = d, !.mode = m, !.path = p] : d \in Fds, m \in {"r", "w", "a", "rw"}, p \in 1..2}
   \cup {[R0 EXCEPT !.t = "dup", !.dst = d, !.src = x] : d \in Fds, x \in Fds}
   \cup {[R0 EXCEPT !.t = "close", !.dst = d] : d \in Fds}
+(* a port the form owns (a file it opened, or the pipe it reads from) is duplicated, and the original
+   slot is redirected from the duplicate, redirected again or closed: every order over two fds *)
+MiniFds == {FdA, FdB}
+MiniAlphabet ==
+       {[R0 EXCEPT !.t = "file", !.dst = d, !.mode = m, !.path = 1] : d \in MiniFds, m \in {"r", "w"}}
+  \cup {[R0 EXCEPT !.t = "dup", !.dst = d, !.src = x] : d \in MiniFds, x \in MiniFds}
+  \cup {[R0 EXCEPT !.t = "close", !.dst = d] : d \in MiniFds}
+Alphabet == IF Mini THEN MiniAlphabet ELSE FullAlphabet
 BodyOps == {[t |-> k, fd |-> f, n |-> 120 + f] : k \in {"b", "v", "r"}, f \in 0..4}
 
 Early == [early |-> TRUE, m1raise |-> FALSE]
